@@ -18,6 +18,6 @@ PROP = {
 
 # (category, text, design_ref, technique)
 LEVEL = ("other",
-         "Two parts. (1) Lean theorems: the no-panic / termination obligations of every modelled stage (lexer total incl. Tokens::iter, sink never out of bounds for every well-counted trace, line_col total, defer code generation total), collected in Props/C06.lean. (2) Search, not proof: every run compiles the probe corpus of past crashes, token soups / nesting / corpus mutations, random UTF-8, generated well-typed programs and 1-3-edit mutations of them with the real CLI in child processes under a deadline; any outcome other than diagnostics or an object (panic, signal, time-out, Cranelift/verifier error, link failure) is a violation labelled by its site. The unchanged tree violates C06 in many places (type checker on erroneous programs, diagnostic rendering, three crashes on valid programs): recorded as known findings; eight other crashes/hangs were repaired by fix: commits (parser hang, parser index panic, Tokens::iter, get_const hang, switch panics, enum-return crash, float bitwise crash).",
+         "Two parts. (1) Lean theorems: the no-panic / termination obligations of every modelled stage (lexer total incl. Tokens::iter, sink never out of bounds for every well-counted trace, line_col total, defer code generation total), collected in Props/C06.lean. (2) Search, not proof: every run compiles the probe corpus of past crashes, token soups / nesting / corpus mutations, random UTF-8, generated well-typed programs and 1-3-edit mutations of them with the real CLI in child processes under a deadline; any outcome other than diagnostics or an object (panic, signal, time-out, Cranelift/verifier error, link failure) is a violation; a crash on an INVALID input is labelled by crate + kind of failure (known findings are these kinds), a crash on a valid program by its exact assertion, so a new crash site on valid programs is always reported; deep expression chains (24 / 64 / 200 levels) are part of every run. The unchanged tree violates C06 in many places (type checker on erroneous programs, diagnostic rendering, three crashes on valid programs): recorded as known findings; eight other crashes/hangs were repaired by fix: commits (parser hang, parser index panic, Tokens::iter, get_const hang, switch panics, enum-return crash, float bitwise crash).",
          "§4 C06",
          "Lean 4 proofs of the modelled stages' panic-freedom + totality search on the real CLI in child processes")
